@@ -6,9 +6,11 @@ import (
 	"fmt"
 	"hash/fnv"
 	"io"
+	"net"
 	"sync"
 	"sync/atomic"
 	"testing"
+	"time"
 
 	"github.com/fiorix/go-diameter/v4/diam"
 	"github.com/fiorix/go-diameter/v4/diam/datatype"
@@ -189,6 +191,85 @@ func TestC07(t *testing.T) {
 			}
 			c.Sample(map[string]any{"writers": W, "wire_order": seq})
 		}
+	})
+
+	// (a') the same over a real loopback TCP socket (kernel buffers, real scheduler)
+	rec.Suite("concurrent-writers-tcp", rec.N(24, 2000), func(c *ev.Case) {
+		r := c.R
+		ln, err := net.Listen("tcp", "127.0.0.1:0")
+		if err != nil {
+			c.Fail(ev.Sig{"op": "setup"}, nil, nil, "listen: %v", err)
+			return
+		}
+		defer ln.Close()
+		got := make(chan []byte, 1)
+		go func() {
+			cn, err := ln.Accept()
+			if err != nil {
+				got <- nil
+				return
+			}
+			b, _ := io.ReadAll(cn)
+			cn.Close()
+			got <- b
+		}()
+		conn, err := diam.Dial(ln.Addr().String(), diam.HandlerFunc(func(diam.Conn, *diam.Message) {}), ctx.Parser)
+		if err != nil {
+			c.Fail(ev.Sig{"op": "setup"}, nil, nil, "dial: %v", err)
+			return
+		}
+		W := []int{2, 3, 8, 32}[r.IntN(4)]
+		per := 1 + r.IntN(300/W+1)
+		okIDs := map[uint32]int{}
+		sizes := map[uint32]int{}
+		plan := make([][]int, W)
+		for w := 0; w < W; w++ {
+			for s := 0; s < per; s++ {
+				sz := c07Sizes[r.IntN(len(c07Sizes))]
+				plan[w] = append(plan[w], sz)
+				sizes[uint32(w)<<16|uint32(s)] = sz
+			}
+		}
+		var mu sync.Mutex
+		var wg sync.WaitGroup
+		var werr atomic.Value
+		for w := 0; w < W; w++ {
+			wg.Add(1)
+			go func(w int) {
+				defer wg.Done()
+				for s, sz := range plan[w] {
+					m, id := c07Message(ctx, w, s, sz)
+					if _, err := m.WriteTo(conn); err != nil {
+						werr.Store(fmt.Errorf("writer %d seq %d: %v", w, s, err))
+						return
+					}
+					mu.Lock()
+					okIDs[id]++
+					mu.Unlock()
+				}
+			}(w)
+		}
+		wg.Wait()
+		conn.Close()
+		var log []byte
+		select {
+		case log = <-got:
+		case <-time.After(60 * time.Second):
+			c.Fail(ev.Sig{"op": "watchdog"}, nil, nil, "the TCP peer did not see EOF within 60 s")
+			return
+		}
+		if e := werr.Load(); e != nil {
+			c.Fail(ev.Sig{"op": "write-error", "via": "tcp"}, nil, nil, "a write failed on a healthy TCP connection: %v", e)
+			return
+		}
+		c.Class("tcp/writers=%d", W)
+		if _, problem := checkWireLog(log, okIDs, sizes); problem != "" {
+			c.Fail(ev.Sig{"op": "wire-log", "writers": W, "via": "tcp"}, nil, nil, "over loopback TCP, %d writers x %d messages: %s", W, per, problem)
+			return
+		}
+		msgs, _ := peer.SplitMessages(log)
+		c.Event("messages_on_wire", len(msgs))
+		c.Event("tcp_runs", 1)
 	})
 
 	// (b) retry scripts: every sequence of (bytes accepted, temporary error)
